@@ -33,6 +33,9 @@ CHECKS = {
  "C10": dict(tech="static analysis: associated-data coverage rules (seal/open argument provenance, cursor arithmetic, stop-at-authenticator path query), key-direction table, must-pass gates in both listeners, seal/open sibling agreement, constant-argument rule for the TLS exporter on SSA",
    text="Structural necessary conditions decided exactly for their clause: pack seals over buf[:pos] before writing its header at pos, DecodePacket records that position and reads no extension after the authenticator, authenticate opens the packet's own nonce/ciphertext over b[:Auth.pos]; request/response keys per direction on client, server and key-exchange server, exporter contexts fresh constants ending 0x00/0x01; cookie keys, new cookies and the response exist only behind ProcessRequest==nil on the cookie opened under provider.Get(cookie.ID); all AEADs AES-CMAC-SIV/16, cookie AD nil on both sides, Decrypt returns only via Open==nil and Decode==nil. AEAD security is trusted.",
    ref="DESIGN.md §4 C10"),
+ "C11": dict(tech="static analysis: tag agreement, pop-on-every-success-path and request-from-this-fetch provenance rules, loop-bound recognition for placeholder and issue counts, fresh-allocation (no aliasing) rule for issued cookies, who-may-call rule for StoreCookie on SSA",
+   text="Structural necessary conditions decided exactly for their clause: extension kinds typed as themselves; FetchData pops exactly the first cookie on every success path and returns the pre-pop copy; the request uses only Cookie[0], one cookie field, placeholders for i from len(cookies) to 8; clients build the request from this invocation's fetch outside any retry loop; servers issue len(Cookies)+len(Placeholders) cookies, each the freshly allocated Encode() of the session cookie sealed under provider.Current(); cookies stored only by ProcessResponse after authentication. Pool bounds over histories and the 1024-byte size budget are run-time arithmetic and are not decided (see DESIGN §5 for the known overflow at pool level 1).",
+   ref="DESIGN.md §4 C11"),
 }
 NA = {
  "C04": "all clauses are value arithmetic over time.Time/uint32 (truncation direction, era unfolding, order preservation); no structural or finite-domain clause; matching the constants would be a frozen-fragment proxy",
